@@ -461,7 +461,7 @@ def check_all(prop: str, pkg, opts, res) -> list:
         if api_files != [f"{pkg['root']}__api.json"]:
             fail("C10", f"API file(s) {api_files}, expected {pkg['root']}__api.json")
     if prop == "C11":
-        check_refs(fail, stubs, safe)
+        check_refs(fail, stubs, safe, truth)
     if prop == "C12" and api is not None:
         check_inventory(fail, truth, api, excluded)
     return fails
@@ -715,12 +715,57 @@ def check_function(fail, prop, q, f, decl, path, safe, is_method, opts, is_ctor=
 BUILTIN_TYPES = {"Int", "String", "Boolean", "Float", "Nothing", "Any", "List", "Map", "Set", "Tuple"}
 
 
-def check_refs(fail, stubs: Stubs, safe):
+def check_refs(fail, stubs: Stubs, safe, truth: Truth = None):
+    """C11.  Every failure carries the facts needed to recognise the known defect classes (K11-*): whether the
+    name is that of a private class, lies on a private path, comes from a module that an __init__ re-exports,
+    occurs in the stub of a re-exported declaration, or is a returned variable taken for a type name."""
     declared = {}
     for path, sf in stubs.parsed.items():
         s = declared.setdefault(sf.package, set())
         for d in sf.decls:
             s.add(d.name)
+    pkg = truth.pkg if truth is not None else None
+    reexported_modules, reexport_stub_paths, returned_names = set(), set(), set()
+    moved_names = {}          # module qname -> names of its declarations that an __init__ moves elsewhere
+    if pkg is not None:
+        for p, entries in pkg["inits"].items():
+            for e in entries:
+                reexported_modules.add(e["module"])
+                if e["form"] == "name":
+                    reexport_stub_paths.add(f"{p}/{(e['alias'] or e['name']).lstrip('_')}.sdsstub")
+                    moved_names.setdefault(e["module"], set()).add(e["name"])
+                elif e["form"] == "star":
+                    # a wildcard import moves every public top-level declaration of that module
+                    for m in pkg["modules"]:
+                        if m["qname"] == e["module"]:
+                            for x in m["classes"] + m["functions"]:
+                                reexport_stub_paths.add(f"{p}/{x['name'].lstrip('_')}.sdsstub")
+                                moved_names.setdefault(e["module"], set()).add(x["name"])
+        for m in pkg["modules"]:
+            def walk(c):
+                if c.get("extras", {}).get("overload"):
+                    returned_names.add("v")
+                for k in c["classes"]:
+                    walk(k)
+            for c in m["classes"]:
+                walk(c)
+
+    def facts(path, name, frm=None, pymodule=None):
+        segs = (frm or "").split(".")
+        return {"path": path, "name": name, "private_class": name.lstrip("`").startswith("_"),
+                # the name is that of a declaration of this very module which an __init__ moved to another package
+                "refers_to_moved_sibling": name in moved_names.get(pymodule, set()) or name in moved_names.get(frm, set()),
+                "private_path": any(x.lstrip("`").startswith("_") for x in segs[1:]),
+                "module_reexported": frm in reexported_modules if frm else False,
+                "reexport_stub": path in reexport_stub_paths or any(path.startswith(q.replace(".", "/").rsplit("/", 1)[0] + "/")
+                                                                     and path.count("/") == q.count(".") - 1 + 1 and False
+                                                                     for q in ()),
+                "in_moved_module_stub": any(path == m.replace(".", "/").rsplit("/", 1)[0] + "/" + m.rsplit(".", 1)[1].lstrip("_") + ".sdsstub"
+                                            for m in reexported_modules),
+                "returned_variable_name": name in returned_names,
+                "aliased_reexport": any(e["form"] == "name" and e["alias"] and e["name"] == name and pk.replace("/", ".") == frm
+                                        for pk, entries in (pkg["inits"].items() if pkg else []) for e in entries)}
+
     for path, sf in stubs.parsed.items():
         local, tvars, refs = set(), set(), set()
         for d, _ in walk_decls(sf):
@@ -739,11 +784,11 @@ def check_refs(fail, stubs: Stubs, safe):
         for r in sorted(refs):
             if r in BUILTIN_TYPES or r in local or r in imported or r in tvars:
                 continue
-            fail("C11", f"{path}: class {r!r} is used but neither declared nor imported there", path=path, name=r)
+            fail("C11", f"{path}: class {r!r} is used but neither declared nor imported there", **facts(path, r, None, sf.pymodule))
         for frm, nm in sf.imports:
             if nm not in declared.get(frm, set()):
                 fail("C11", f"{path}: 'from {frm} import {nm}' does not resolve to a generated declaration",
-                     path=path, target=f"{frm}.{nm}")
+                     target=f"{frm}.{nm}", **facts(path, nm, frm, sf.pymodule))
 
 
 def check_inventory(fail, truth: Truth, api, excluded):
